@@ -118,9 +118,12 @@ def q_hdr(hostlen, reslen, header_kind, group="all"):
     elif header_kind == "dict":
         hd = {}
         for i in range(2):
-            kind = sx.choice("hd%d" % i, 3)  # absent / None / value
+            kind = sx.choice("hd%d" % i, 4)  # absent / None / value / empty value
             if kind == 1:
                 hd["X-%d" % i] = None
+            elif kind == 3:
+                hd["X-%d" % i] = ""
+                custom_expected.append("X-%d: " % i)
             elif kind == 2:
                 v = sx.sym_str("hv%d" % i, 2)
                 _no_crlf(v)
@@ -249,14 +252,16 @@ def q_wire(scheme, port, with_opts):
     HS.CookieJar.jar.clear()
     host = sx.sym_str("host", 3)
     _no_crlf(host)
-    sx.assume(sx.Not(host.contains_term(":")))  # the bracketed IPv6 form is Q-hdr's subject
+    sx.assume(sx.Not(sx.contains(host, ":")))  # the bracketed IPv6 form is Q-hdr's subject
     res = "/" + sx.sym_str("res", 2)
     _no_crlf(res)
     opts = {}
     if with_opts:
+        import http.cookies
         c = sx.sym_str("cookie", 2)
         _no_crlf(c)
         opts = {"cookie": c, "subprotocols": ["a", "b"], "header": ["X-A: 1"]}
+        HS.CookieJar.jar["." + host.lower()] = http.cookies.SimpleCookie("s=1")  # a cookie the server set earlier for this host
     sock = FakeSock(["eof"])
     try:
         HS.handshake(sock, "%s://x/" % scheme, host, port, res, **opts)
@@ -275,11 +280,60 @@ def q_wire(scheme, port, with_opts):
     sx.require(wire[: len(hb)] == hb, "request line, Upgrade, Host and Origin on the wire")
     tail = "\r\nSec-WebSocket-Version: 13\r\nConnection: Upgrade\r\n"
     if with_opts:
-        tail = tail + "Sec-WebSocket-Protocol: a,b\r\nX-A: 1\r\nCookie: " + opts["cookie"] + "\r\n"
+        tail = tail + "Sec-WebSocket-Protocol: a,b\r\nX-A: 1\r\nCookie: s=1; " + opts["cookie"] + "\r\n"
     tail = tail + "\r\n"
     tb = tail.encode()
-    sx.require(wire[len(hb) + 24:] == tb, "version, connection, subprotocols, custom headers and cookie on the wire, in order")
+    sx.require(wire[len(hb) + 24:] == tb, "version, connection, subprotocols, custom headers and cookie (jar cookies first, then the caller's) on the wire, in order")
+    HS.CookieJar.jar.clear()
     cover("wire")
+
+
+URL_HOSTS = (("h.example", "h.example"), ("10.1.2.3", "10.1.2.3"), ("[2001:db8::1]", "[2001:db8::1]"), ("H.Example", "h.example"))
+URL_PORTS = ("", ":80", ":443", ":8080")
+URL_PATHS = ("", "/", "/a/b")
+URL_QUERIES = ("", "?q=1", "?a=1&b=2")
+
+
+def q_url(scheme):
+    """URL -> request, end to end through create_connection on the fake network (strings concrete per path)"""
+    quiet_logging()
+    import simnet
+    import websocket
+    import websocket._handshake as HS
+    HS.CookieJar.jar.clear()
+    host, host_l = URL_HOSTS[sx.choice("host", len(URL_HOSTS))]
+    port = URL_PORTS[sx.choice("port", len(URL_PORTS))]
+    path = URL_PATHS[sx.choice("path", len(URL_PATHS))]
+    query = URL_QUERIES[sx.choice("query", len(URL_QUERIES))]
+    url = scheme + "://" + host + port + path + query
+    k = simnet.Kernel(step_budget=3000)
+    net = simnet.Net(k, [{}], tls=scheme == "wss")
+    simnet.install(k, net, tls=scheme == "wss")
+    try:
+        try:
+            ws = websocket.create_connection(url, timeout=5)
+            ws.shutdown()
+        except (sx.Control, sx.ConcreteFailure, sx.ReplayMismatch):
+            raise
+        except Exception as e:
+            sx.require(False, "valid URL could not be connected: %s" % type(e).__name__, url=url)
+            return
+    finally:
+        k.shutdown()
+        simnet.uninstall()
+    sx.require(len(net.requests) == 1, "exactly one request is sent", url=url)
+    lines = net.requests[0][2].split("\r\n")
+    target = (path or "/") + query
+    sx.require(lines[0] == "GET " + target + " HTTP/1.1", "request target is the URL's path ('/' if empty) and query", url=url, got=lines[0])
+    pnum = int(port[1:]) if port else (443 if scheme == "wss" else 80)
+    exp_host = host_l if pnum in (80, 443) else host_l + ":" + str(pnum)
+    sx.require("Host: " + exp_host in lines, "Host names the URL's host (bracketed if IPv6) with the port unless it is 80 or 443", url=url,
+               got=str([l for l in lines if l.startswith("Host")]))
+    sx.require("Origin: " + ("https" if scheme == "wss" else "http") + "://" + exp_host in lines, "default Origin derived from scheme, host and port", url=url)
+    for must in ("Upgrade: websocket", "Connection: Upgrade", "Sec-WebSocket-Version: 13"):
+        sx.require(must in lines, "mandatory upgrade headers present", url=url, missing=must)
+    sx.require(len([l for l in lines if l.startswith("Sec-WebSocket-Key: ")]) == 1, "one key header", url=url)
+    cover("url")
 
 
 def obligations(tier):
@@ -298,6 +352,10 @@ def obligations(tier):
                    "ws/wss; options host/origin/cookie/connection each absent / None / 1..2 symbolic chars; suppress_origin; 0..2 subprotocols of 2 chars; "
                    "header as list (0..2 lines) or dict (absent / None / value per entry)" % ((1, 2, 3, 4) if thorough else (1, 3),),
                    must_cover=["hdr", "ipv6"], budget_s=3000, kernel=["_handshake._get_handshake_headers", "_pack_hostname", "_create_sec_websocket_key"]),
+        Obligation("Q-url", q_url, [dict(scheme=s) for s in ("ws", "wss")],
+                   bounds="URL catalogue: scheme x host form (name, IPv4, bracketed IPv6, upper-case) x port (none, 80, 443, 8080) x path x query, full product, "
+                          "through create_connection on the fake network", must_cover=["url"], step_budget=100000,
+                   kernel=["_url.parse_url", "_http.connect", "_handshake.handshake", "_get_handshake_headers"]),
         Obligation("Q-key", q_key, [{}], bounds="all 2^128 values of the 16 random bytes (symbolic), two successive requests", must_cover=["key"],
                    solver_timeout_ms=120000, kernel=["_create_sec_websocket_key", "_get_handshake_headers"]),
         Obligation("Q-wire", q_wire, [dict(scheme=s, port=p, with_opts=w) for s in ("ws", "wss") for p in (80, 443, 8443) for w in (False, True)],
